@@ -1,4 +1,4 @@
-CONSTANTS N = 4  Byz = {4}  MaxView = 3  MaxBlocksPerView = 2  Ruleset = "chained"  Weak = "none"  Prefix = 0  EquivViews = {2}  DumpEvery = 0
+CONSTANTS N = 4  Byz = {4}  MaxView = 3  MaxBlocksPerView = 2  Ruleset = "chained"  Weak = "none"  Prefix = 0  EquivViews = {2}  DumpEvery = 0  GroupVotes = FALSE
 SPECIFICATION SpecOrdered
 INVARIANT Agreement
 INVARIANT OneVotePerView
